@@ -163,10 +163,23 @@ def oracle(ctx, hints=()):
             evals += 4
         nontriv += 1 if c.nontrivial else 0
         per_cs[c.s['cs']] = per_cs.get(c.s['cs'], 0) + 1
+    # every setting, every run (see props/c05.py sweep_cases)
+    sw = c05.sweep_cases(ctx)
+    for i, c in enumerate(sw):
+        v, k = check_unique(c, 'laue' if (i + ctx.seed) % 2 == 0 else 'tools', 'name' if (i // 2 + ctx.seed) % 2 == 0 else 'no', seed=i, variant=0)
+        viol += v
+        d2 += k
+        evals += 4
+    sr = c05.scale_rule_cases(ctx, per_setting=ctx.n(1, 4, boost=3))
+    for i, c in enumerate(sr):
+        v, k = check_unique(c, 'laue' if (i + ctx.seed) % 2 == 0 else 'tools', 'no', seed=i, variant=0)
+        viol += v
+        d2 += k
+        evals += 4
     c0 = cases[0]
     sample = dict(c0.ident(), n_expected=len(c0.expected()))
     return {'evaluations': evals, 'distinct_nontrivial': nontriv, 'violations': c05.dedup_known(viol), 'samples': [sample],
-            'stats': {'cases': len(cases), 'skipped_margin': skipped, 'D2_hits': d2, 'cases_per_crystal_system': per_cs}, 'exhaustive': False}
+            'stats': {'cases': len(cases), 'all_settings_sweep': len(sw), 'scale_rule_cases': len(sr), 'skipped_margin': skipped, 'D2_hits': d2, 'cases_per_crystal_system': per_cs}, 'exhaustive': False}
 
 
 def check_known(finding):
